@@ -173,7 +173,11 @@ impl DataBuf {
     fn try_push(&mut self, buf: Bytes, max_size: usize) -> Result<(), Bytes> {
         match self.remaining.checked_add(buf.len()) {
             Some(new_size) if new_size <= max_size => {
-                self.bufs.push_back(buf);
+                // Empty chunks are not stored, so that `chunk()` returns an empty slice
+                // only when no data remains, as required by `Buf`.
+                if !buf.is_empty() {
+                    self.bufs.push_back(buf);
+                }
                 self.remaining = new_size;
                 Ok(())
             }
